@@ -4,3 +4,7 @@ import Ufw.Props.C20
 #print axioms Ufw.Props.C20.terminates
 #print axioms Ufw.Props.C20.success_forward
 #print axioms Ufw.Props.C20.list_reader_safe
+#print axioms Ufw.Props.C20.parse_rendering
+#print axioms Ufw.Props.C20.render_is_rendering
+#print axioms Ufw.Props.C20.parse_render
+#print axioms Ufw.Props.C20.hex_rendering
